@@ -6,9 +6,8 @@ VARIANTS = ['int,nojit', 'int,jit', 'int,true', 'repeat,nojit', 'repeat,jit']
 
 
 def run(ded, repo, tier):
-    for v in VARIANTS:
-        eng = m.make_engine(repo)
-        driver.discharge(ded, eng, 'backoff_iter', clause_of={'*': 'backoff_contract'}, tier=tier, variant=v)
+    driver.run_parallel(ded, [dict(module='contracts.iterutils_c', repo=repo, q='backoff_iter', variant=v, tier=tier,
+                                   clause_of={'*': 'backoff_contract'}) for v in VARIANTS])
     ded.assume('float arithmetic is treated as exact real arithmetic (rounding is covered only by the bounded check)')
     ded.assume("count is an int >= 0 or 'repeat' in the proved variants; the default count (math.log/ceil) clause "
                "'last value is stop' is decided by the bounded check only")
